@@ -84,6 +84,54 @@ def hooked_var(fac, inner):
     return None
 
 
+def trace_render_pure(run, model):
+    """trace() is what the user reads the trace through: it must be a rendering of the records that are in full.trace *now* - every record, in order - and of nothing
+    the chart remembers from earlier calls (the ring buffer drops old records, so any position/length remembered between calls goes stale once it rolls)."""
+    from sa.context import effects
+    run.rule('TRACE.render', 'trace() iterates the whole of self.full.trace and writes no attribute of the chart (its answer does not depend on earlier calls)')
+    fx = effects(model)
+    n = 0
+    for cn in ('HsmWithQueues', 'ActiveObject', 'Factory'):
+        c = model.classes.get(cn)
+        f = c.methods.get('trace') if c is not None else None
+        if f is None:
+            continue
+        n += 1
+        run.touch(f)
+        ws = sorted({(p_, o_) for (p_, o_, _ln, _how) in fx.writes(f) if not p_.startswith('<')})
+        run.inst('TRACE.render', f, 'writes no state of the chart', not ws,
+                 '' if not ws else ('%s.trace() updates %s (in %s): what it returns depends on what earlier calls left behind - a position or length remembered between calls no longer '
+                                    'matches the ring buffer once it has dropped old records, so trace() shows records that are gone and misses recent ones'
+                                    % (cn, ', '.join(w_[0] for w_ in ws), ws[0][1])), obligation=True)
+        # the loop (or comprehension / join) ranges over the live deque itself
+        srcs = []
+        todo, seen = [f], set()
+        while todo:
+            g_ = todo.pop()
+            if g_.qualname in seen:
+                continue
+            seen.add(g_.qualname)
+            for x in ast.walk(g_.node):
+                it = x.iter if isinstance(x, (ast.For, ast.comprehension)) else None
+                if it is not None and 'trace' in norm(it):
+                    srcs.append(norm(it))
+                if isinstance(x, ast.Call) and isinstance(x.func, ast.Attribute) and isinstance(x.func.value, ast.Name) and g_.params and x.func.value.id == g_.params[0]:
+                    for k in model.mro(c):
+                        if x.func.attr in k.methods:
+                            todo.append(k.methods[x.func.attr])
+                            break
+                if isinstance(x, ast.Call) and isinstance(x.func, ast.Attribute) and x.func.attr == 'trace' and isinstance(x.func.value, ast.Call) and norm(x.func.value.func) == 'super':
+                    for k in model.mro(c)[1:]:
+                        if 'trace' in k.methods:
+                            todo.append(k.methods['trace'])
+                            break
+        ok = bool(srcs) and all(s_.replace('list(', '').rstrip(')') in ('self.full.trace',) for s_ in srcs)
+        run.inst('TRACE.render', f, 'renders every record of self.full.trace: %s' % (srcs or 'no loop found'), ok,
+                 '' if ok else 'trace() does not range over the whole of self.full.trace (%s): records are skipped or the output is cut' % srcs, obligation=True)
+    run.floor('trace() renderers', n, 2)
+
+
+
 def check(run, model, tier):
     run.explanation = ('Path-count and guard analysis of the two trace wrappers, and an outcome-completeness rule over the dispatch outcome switch and '
                        'over every package handler that is not spy-wrapped: the trace wrapper can only tell "transition" from "handled"/"ignored" '
@@ -298,4 +346,5 @@ def check(run, model, tier):
                                     '"ignored" and appends a phantom record (signal "", no timestamp) for a step that was not a transition; trace() then fails in strftime'
                                     % f.qualname), node=hn.ast, obligation=True)
     run.floor('top() implementations in the package', n_top, 2)
+    trace_render_pure(run, model)
     run.assume('user handlers are decorated with spy_on when the chart is instrumented (spy_on_start switches instrumentation off otherwise)')
